@@ -215,14 +215,39 @@ Proof.
   - cbn. tauto.
 Qed.
 
-(** ... and white space is needed only where two tokens would otherwise run together: [seps_ok l] asks, for every token written with NO
-    white space after it, that the next character cannot continue it ([boundary]: after an identifier or keyword no identifier
+(** ... and a separator (white space, `#` comments) is needed only where two tokens would otherwise run together: [seps_ok l] asks, for
+    every token written with NOTHING after it, that the next character cannot continue it ([boundary]: after an identifier or keyword no identifier
     character, after a one-character operator nothing that forms a two-character operator, comment or flag with it, after a number
     no digit / letter / underscore / dot, after a duration no unit or digit; after a string or a two-character operator anything) *)
 Theorem lex_layout_tight : forall l : list (ltok * bytes), Forall (fun x => wf_ltok (fst x)) l -> seps_ok l -> fun_ok l ->
   lex (layout l) = LexOk (map (fun p => lres (fst p)) l).
 Proof. exact lex_layout_tight_lemma. Qed.
 Print Assumptions lex_layout_tight.
+
+(** hence the token sequence depends on the tokens only: not on the separators -- white space and `#` comments running to the end of their
+    line ([is_sep]) -- and not on the quoting style of a string: "..." with quote and backslash escaped, or a raw string `...` *)
+Theorem lex_layout_content : forall l1 l2 : list (ltok * bytes),
+  Forall (fun x => wf_ltok (fst x)) l1 -> Forall (fun x => wf_ltok (fst x)) l2 -> seps_ok l1 -> seps_ok l2 -> fun_ok l1 -> fun_ok l2 ->
+  map (fun p => lres (fst p)) l1 = map (fun p => lres (fst p)) l2 -> lex (layout l1) = lex (layout l2).
+Proof. exact LexerTightP.lex_layout_content. Qed.
+Print Assumptions lex_layout_content.
+
+(** non-vacuity:  {app="x"}|json  and the same query over three lines, with comments, a tab and a raw string *)
+Example lex_layout_content_example :
+  let ob := LPunct TOpenBrace ["{"%byte] in let cb := LPunct TCloseBrace ["}"%byte] in let eq := LPunct TEq ["="%byte] in
+  let pipe := LPunct TPipe ["|"%byte] in let js := LWord TJSON ["j"%byte; "s"%byte; "o"%byte; "n"%byte] in let app := LId ["a"%byte; "p"%byte; "p"%byte] in
+  let l1 := [(ob, []); (app, []); (eq, []); (LStr ["x"%byte], []); (cb, []); (pipe, []); (js, [])] in
+  let l2 := [(ob, [" "%byte]); (app, [x09]); (eq, []); (LRaw ["x"%byte], ["#"%byte; "s"%byte; "e"%byte; "l"%byte; x0a; " "%byte]); (cb, [x0a]);
+             (pipe, [" "%byte; "#"%byte; " "%byte; "|"%byte; " "%byte; "x"%byte; x0a; " "%byte]); (js, [" "%byte])] in
+  Forall (fun x => wf_ltok (fst x)) l1 /\ Forall (fun x => wf_ltok (fst x)) l2 /\ seps_ok l1 /\ seps_ok l2 /\
+  layout l2 = [ "{"; " "; "a"; "p"; "p"; x09; "="; "`"; "x"; "`"; "#"; "s"; "e"; "l"; x0a; " "; "}"; x0a; "|"; " "; "#"; " "; "|"; " "; "x"; x0a; " "; "j"; "s"; "o"; "n"; " " ]%byte /\
+  lex (layout l1) = lex (layout l2) /\ lex (layout l1) = LexOk (map (fun p => lres (fst p)) l1).
+Proof.
+  cbv zeta. split; [repeat constructor; vm_compute; reflexivity|]. split; [repeat constructor; vm_compute; reflexivity|].
+  split; [vm_compute; repeat split; try reflexivity; intros _; repeat split; reflexivity|].
+  split; [vm_compute; repeat split; try reflexivity; try discriminate; intros _; repeat split; reflexivity|].
+  split; [vm_compute; reflexivity|]. split; vm_compute; reflexivity.
+Qed.
 
 Theorem spaced_layouts_qualify : forall l : list (ltok * bytes), Forall (fun x => all_space (snd x)) l -> seps_ok l.
 Proof. exact seps_spaced. Qed.
